@@ -166,3 +166,10 @@ func PoolReuse(on bool) {}
 // ConcreteClock(true) makes the executor's clock stub return fixed increasing instants (the
 // property under check must not depend on the clock).
 func ConcreteClock(on bool) {}
+
+// Pause gives other goroutines time to run natively (20ms); no effect under the executor, which
+// explores the orders itself.
+func Pause() { time.Sleep(20 * time.Millisecond) }
+
+// VisibleAtomics(true) makes sync/atomic operations scheduling points of the executor.
+func VisibleAtomics(on bool) {}
